@@ -14,6 +14,7 @@ let () =
     | "params" -> H_params.params_case
     | "doubles" -> H_doubles.doubles_case
     | "tool" -> H_tool.tool_case
+    | "xml" -> H_xml.xml_case
     | _ -> failwith ("unknown model " ^ sub) in
   (try
     while true do
